@@ -121,6 +121,8 @@ func c01(tier string) int {
 		run.Add("traces_validated_against_impl", tr)
 		run.Add("evaluations", tr)
 	}
+	// Concurrent leg: conflicting first use and a fork race at 4 -> 6.
+	c05Concurrent(run, "C01", tier)
 	for _, k := range []string{"first-use", "growth", "refresh"} {
 		if run.HistGet("accepted_kinds", k) == 0 {
 			run.Vacuous("no accepted %s step was explored", k)
@@ -147,6 +149,8 @@ func c03(tier string) int {
 	}
 	runPlan(run, p, c03Monitor(run), unknownReqs)
 	c03StorageFailures(run)
+	// Concurrent leg: a refused update overlapping accepted ones and readers.
+	c05Concurrent(run, "C03", tier)
 	for _, c := range []string{"unknown-log", "bad-signature", "old-size-too-large", "stale-old-size", "root-mismatch", "invalid-proof", "non-empty-proof-at-size-zero", "storage-failure"} {
 		if run.HistGet("refusal_classes", c) == 0 {
 			run.Vacuous("refusal class %q was never exercised", c)
@@ -165,7 +169,7 @@ func c04(tier string) int {
 	// line + J unknown lines + one line per witness key): the largest J that
 	// still fits must be cosigned with the log's line intact, one more must be
 	// refused.
-	shapes := []string{"plain", "ext", "junk1", "otherlog", "stale-own-valid", "stale-own-invalid", "dup-logsig", "junk96", "junk97", "junk98", "junk99", "bigext70"}
+	shapes := []string{"plain", "ext", "junk1", "otherlog", "stale-own-valid", "stale-own-invalid", "dup-logsig", "junk96", "junk97", "junk98", "junk99", "bigext70", "sizepad", "looseb64"}
 	n := 6
 	if tier == "thorough" {
 		n = 9
